@@ -173,6 +173,7 @@ Section Pres.
     intros HO HJ Hstep. step_split Hstep Ea Est.
     all: try discriminate Hstep.
     all: injection Hstep as <-.
+    all: pop_cont_split.
     all: pose proof (stacks_lookup _ _ _ Ea) as Hst; rewrite Est in Hst.
     all: match goal with |- Inv_jobs ?s' =>
            first [ assert (Hh : held s' = held s) by
